@@ -68,7 +68,7 @@ PLAN = {
                             'destination, fresh blocks are disjoint from the old one; deallocate of a non-last block is a no-op. The Allocator glue (slice length, zeroed tail) and '
                             'byte preservation are bounded Kani harnesses.'),
     'C13': dict(v=['rawvec'], level='model_checking',
-                k_quick=['k_vec_insert_remove', 'k_vec_swap_remove_truncate', 'k_vec_drain', 'k_vec_append_split_off', 'k_vec_push_pop_grow', 'k_vec_shrink_moves', 'k_vec_insert_oob'],
+                k_quick=['k_vec_insert_remove', 'k_vec_swap_remove_truncate', 'k_vec_drain', 'k_vec_append_split_off', 'k_vec_push_pop_grow', 'k_vec_shrink_moves', 'k_vec_insert_oob', 'k_drop_dedup'],
                 k_thorough=['k_vec_insert_remove_ends', 'k_vec_drain_wide', 'k_vec_reserve_shrink_small', 'k_vec_drain_filter', 'k_vec_zst', 'k_ovf_vec', 'k_vec_remove_oob',
                             'k_vec_swap_remove_oob', 'k_vec_split_off_oob', 'k_vec_drain_oob', 'k_vec_drain_inverted', 'k_drop_dedup', 'k_box_from_vec_then_alloc'],
                 technique='bounded model checking (Kani) of the real Vec operations against a sequence model; Verus on the RawVec growth arithmetic',
@@ -86,7 +86,7 @@ PLAN = {
                             'chunk of the lossy decoder on all inputs of length <= 4 and for the 256-entry width table (loop-free / fully symbolic); replace_range\'s boundary '
                             'assertions are proved by Verus to put both ends of the removed byte range on char boundaries for Included/Excluded/Unbounded ends. from_utf16_in, '
                             'retain, pop and replace_range as whole operations exceeded the CBMC budget and are not decided.'),
-    'C15': dict(v=['drainfilter'], level='model_checking',
+    'C15': dict(v=['drainfilter', 'intoiter', 'rawvec'], level='model_checking',
                 k_quick=['k_drop_vec_ops', 'k_drop_iters', 'k_drop_forgotten_iterators', 'k_drop_no_destructors', 'k_drop_dedup', 'k_drop_zst'],
                 k_thorough=['k_drop_dedup_retain', 'k_box_drop_once', 'k_box_slices_arrays'],
                 technique='bounded model checking (Kani) with a per-element drop ledger on the real Vec/Box code',
@@ -94,7 +94,7 @@ PLAN = {
                             'forgotten Drain and DrainFilter/zero-sized elements/into_bump_slice/arena reset. Non-panicking paths only. IntoIter over zero-sized elements reaches a '
                             'construct Kani cannot model (arithmetic on dangling pointers) and is not exercised.'),
     'C17': dict(v=[], level='model_checking',
-                k_quick=['k_box_roundtrips', 'k_box_drop_once', 'k_box_slices_arrays', 'k_box_from_vec_then_alloc'],
+                k_quick=['k_box_roundtrips', 'k_box_drop_once', 'k_box_slices_arrays', 'k_box_from_vec_then_alloc', 'k_box_zst_slice_to_array'],
                 k_thorough=['k_box_downcast', 'k_vec_shrink_moves'],
                 technique='bounded model checking (Kani) of the real Box code for fixed type instances with symbolic values',
                 explanation='BOUNDED in type instances (u32, [u32;3], [u8;3], (), dyn Any, a drop-counting type): value round trips through into_inner/into_raw/from_raw/leak/pin_in, '
